@@ -16,6 +16,8 @@ PLAN = {
  'C16b-unknown-id-restores-last-hit': ['c16', 'c10'], 'C11b-registry-sorted-by-symbol': ['c03', 'c11'], 'C03b-basic-double-transition-before-window': ['c03'],
  'C01b-window-13-months': ['c01'], 'C08b-stale-active-flag': ['c08', 'c01'], 'C07b-startyear-minus-one': ['c07', 'c09'],
  'C04b-basic-finder-drops-year0-anchor': ['c04'],
+ 'C14b-timeout-checked-before-ready': ['c14'], 'C02c-negative-save-abbreviation': ['c02'], 'C09c-findmatch-empty-cache-underflow': ['c09', 'c08'],
+ 'C15c-print-without-rebind': ['c15', 'c08'], 'C18c-leapyear-byte-offset': ['c18', 'c06'],
  'C11-registry-sorted-by-symbol': ['c03', 'c11'], 'C09-transition-pool-6': ['c09', 'c01'], 'C04-cpp-window-13-months': ['c04', 'c01'],
 }
 sel = sys.argv[1:]
